@@ -30,11 +30,39 @@ fn gen(rng: &mut Rng) -> (String, bool) {
     let k = rng.usize_below(nt);
     s.push_str(&format!("struct S1<P0> where P0: T{} {{ f0: P0 }}\n", k));
     if rng.chance(2, 3) {
-        // a struct whose field mentions S1<P0>: well-formed only with the bound
+        // a struct one of whose fields mentions S1<P0>: well-formed only with the bound.  Other
+        // fields (a bare parameter, a closed type) come before or after it.
+        let mut fields: Vec<&str> = vec!["S1<P0>"];
+        if rng.chance(1, 2) {
+            fields.push("P0");
+        }
+        if rng.chance(1, 3) {
+            fields.push("S0");
+        }
+        for i in (1..fields.len()).rev() {
+            let j = rng.usize_below(i + 1);
+            fields.swap(i, j);
+        }
+        let body: Vec<String> = fields.iter().enumerate().map(|(i, f)| format!("f{}: {}", i, f)).collect();
         if rng.chance(2, 3) {
-            s.push_str(&format!("struct S2<P0> where P0: T{} {{ f0: S1<P0> }}\n", k));
+            s.push_str(&format!("struct S2<P0> where P0: T{} {{ {} }}\n", k, body.join(", ")));
         } else {
-            s.push_str("struct S2<P0> { f0: S1<P0> }\n");
+            s.push_str(&format!("struct S2<P0> {{ {} }}\n", body.join(", ")));
+            broken = true;
+        }
+    }
+    if rng.chance(1, 2) {
+        // two parameters; the field that needs a bound mentions the second one
+        let mut fields: Vec<&str> = vec!["P0", "P1", "S1<P1>"];
+        for i in (1..fields.len()).rev() {
+            let j = rng.usize_below(i + 1);
+            fields.swap(i, j);
+        }
+        let body: Vec<String> = fields.iter().enumerate().map(|(i, f)| format!("f{}: {}", i, f)).collect();
+        if rng.chance(2, 3) {
+            s.push_str(&format!("struct S3<P0, P1> where P1: T{} {{ {} }}\n", k, body.join(", ")));
+        } else {
+            s.push_str(&format!("struct S3<P0, P1> {{ {} }}\n", body.join(", ")));
             broken = true;
         }
     }
@@ -74,6 +102,35 @@ fn gen(rng: &mut Rng) -> (String, bool) {
             } else {
                 s.push_str(&format!("impl<P0> T{} for S1<P0> where P0: T{} {{}}\n", tr, k));
             }
+        }
+    }
+    // an impl whose where-clause list mentions `S1<P0>` (an input type that needs `P0: Tk`) next
+    // to clauses on the bare parameter, in random order
+    if rng.chance(1, 2) {
+        let t = rng.usize_below(nt);
+        if supers[t].is_none() {
+            let q = rng.usize_below(nt);
+            let mut wcs: Vec<String> = vec![format!("S1<P0>: T{}", q)];
+            let with_bound = rng.chance(2, 3);
+            if with_bound {
+                wcs.push(format!("P0: T{}", k));
+            } else {
+                broken = true;
+            }
+            if rng.chance(1, 2) {
+                let z = rng.usize_below(nt);
+                if z != k {
+                    // an unrelated clause on the parameter; when Tz is a subtrait of Tk it supplies
+                    // the bound after all (`broken` is only a label: the certified judge decides)
+                    wcs.push(format!("P0: T{}", z));
+                }
+            }
+            for i in (1..wcs.len()).rev() {
+                let j = rng.usize_below(i + 1);
+                wcs.swap(i, j);
+            }
+            s.push_str("struct S4<P0> { }\n");
+            s.push_str(&format!("impl<P0> T{} for S4<P0> where {} {{}}\n", t, wcs.join(", ")));
         }
     }
     (s, broken)
